@@ -786,3 +786,22 @@ mod f40_tag_helper_inherent_items {
         assert!(Msg::validate(&mem).is_err(), "tag 7 names no variant of Msg");
     }
 }
+
+/// Finding 42 (C20), same family as 36 / 38-40 (hunter C20, third round): the per-variant initialiser `<Name>Init<Variant>` converted
+/// itself with `self.into()`; an inherent `into` on that nameable helper redirects `default_in_place` / `new_in_place(.., EInitB)`.
+#[cfg(test)]
+mod f42_variant_init_into {
+    use super::common::*;
+    use flatty::emplacer::NeverEmplacer;
+    #[flat(sized = false, default = true)]
+    pub enum E { A, #[default] B, C(FlatVec<u8, u8>) }
+    impl EInitB {
+        pub fn into(self) -> EInit<NeverEmplacer> { EInit::A }
+    }
+    #[test]
+    fn default_in_place_yields_the_variant_marked_default() {
+        let mut buf = [0xffu8; 8];
+        let e = E::default_in_place(&mut buf).unwrap();
+        assert_eq!(e.tag(), ETag::B);
+    }
+}
